@@ -3,9 +3,11 @@ package main
 // flow.go — E2: dominance, guards, must-pass-through, call order on go/ssa CFGs.
 
 import (
+	"fmt"
 	"go/constant"
 	"go/token"
 	"go/types"
+	"strings"
 
 	"golang.org/x/tools/go/ssa"
 )
@@ -249,8 +251,9 @@ func isMethodCall(in ssa.Instruction, pkgPath, typ, name string) bool {
 }
 
 func isNamedType(t types.Type, pkgPath, name string) bool {
+	t = types.Unalias(t)
 	if p, ok := t.(*types.Pointer); ok {
-		t = p.Elem()
+		t = types.Unalias(p.Elem())
 	}
 	n, ok := t.(*types.Named)
 	if !ok || n.Obj().Name() != name {
@@ -396,9 +399,9 @@ func sinksOf(v ssa.Value) sinkInfo {
 type RLoop struct {
 	Header *ssa.BasicBlock
 	Body   *ssa.BasicBlock
-	X      ssa.Value   // the ranged slice value
-	Elem   ssa.Value   // the loaded element (UnOp of the IndexAddr), may be nil when only the index is used
-	ElemAl *ssa.Alloc  // the local the element is copied into, if any
+	X      ssa.Value  // the ranged slice value
+	Elem   ssa.Value  // the loaded element (UnOp of the IndexAddr), may be nil when only the index is used
+	ElemAl *ssa.Alloc // the local the element is copied into, if any
 	Blocks map[*ssa.BasicBlock]bool
 }
 
@@ -813,5 +816,214 @@ func (a *A) rulePooledMapCleared(fn *ssa.Function) int {
 		a.Check(onGet || beforeExit, construct, in.Pos(), "the pooled map is emptied before its first write after Get (or before every exit)",
 			"a map taken from the pool can be written without having been emptied, or go back to the pool with the previous row's entries on some path: the next evaluation (of any partition, any instance) sees stale fields")
 	})
+	return n
+}
+
+// ---------------------------------------------------------------- delivered batches are fresh storage
+
+// sliceOrigin is one place the backing array of a slice value may come from.
+type sliceOrigin struct {
+	Kind string // fresh | nil | field | global | param | unknown
+	Desc string
+	Pos  token.Pos
+}
+
+// sliceOrigins traces the backing array of slice value v backwards: through re-slicing, append
+// (the base operand), phis, conversions, results of module functions (all their returns) and
+// parameters (all module call sites, bounded depth). A load from a struct field or a package variable
+// is reported as retained storage.
+func (a *A) sliceOrigins(v ssa.Value, fn *ssa.Function) []sliceOrigin {
+	var out []sliceOrigin
+	type key struct {
+		v ssa.Value
+	}
+	seen := map[key]bool{}
+	var walk func(v ssa.Value, fn *ssa.Function, d int)
+	walk = func(v ssa.Value, fn *ssa.Function, d int) {
+		if v == nil || seen[key{v}] {
+			return
+		}
+		seen[key{v}] = true
+		if d > 14 {
+			out = append(out, sliceOrigin{"unknown", "trace depth exceeded at " + v.Name(), v.Pos()})
+			return
+		}
+		switch x := v.(type) {
+		case *ssa.Const:
+			out = append(out, sliceOrigin{"nil", "nil", token.NoPos})
+		case *ssa.MakeSlice:
+			out = append(out, sliceOrigin{"fresh", "make", x.Pos()})
+		case *ssa.Slice:
+			if al, ok := x.X.(*ssa.Alloc); ok {
+				out = append(out, sliceOrigin{"fresh", "literal", al.Pos()})
+				return
+			}
+			walk(x.X, fn, d+1)
+		case *ssa.Phi:
+			for _, e := range x.Edges {
+				walk(e, fn, d+1)
+			}
+		case *ssa.ChangeType:
+			walk(x.X, fn, d+1)
+		case *ssa.Extract:
+			if c, ok := x.Tuple.(*ssa.Call); ok {
+				a.calleeReturns(c, x.Index, func(rv ssa.Value, rf *ssa.Function) { walk(rv, rf, d+1) }, func(why string) {
+					out = append(out, sliceOrigin{"unknown", why, c.Pos()})
+				})
+				return
+			}
+			out = append(out, sliceOrigin{"unknown", "tuple " + x.Tuple.Name(), x.Pos()})
+		case *ssa.Call:
+			if cc, ok := isBuiltinCall(x, "append"); ok {
+				walk(cc.Args[0], fn, d+1)
+				return
+			}
+			a.calleeReturns(x, 0, func(rv ssa.Value, rf *ssa.Function) { walk(rv, rf, d+1) }, func(why string) {
+				out = append(out, sliceOrigin{"unknown", why, x.Pos()})
+			})
+		case *ssa.UnOp:
+			if x.Op != token.MUL {
+				out = append(out, sliceOrigin{"unknown", "op " + x.Op.String(), x.Pos()})
+				return
+			}
+			switch y := x.X.(type) {
+			case *ssa.FieldAddr:
+				if isFreshObject(y) {
+					out = append(out, sliceOrigin{"fresh", "field of an object allocated here", x.Pos()})
+					return
+				}
+				out = append(out, sliceOrigin{"field", TermOf(x, nil).String(), x.Pos()})
+			case *ssa.Global:
+				out = append(out, sliceOrigin{"global", y.Name(), x.Pos()})
+			case *ssa.Alloc:
+				// local variable spilled to memory: every store into it
+				for _, r := range *y.Referrers() {
+					if st, ok := r.(*ssa.Store); ok && st.Addr == ssa.Value(y) {
+						walk(st.Val, fn, d+1)
+					}
+				}
+			case *ssa.IndexAddr, *ssa.Lookup:
+				out = append(out, sliceOrigin{"element", TermOf(x, nil).String(), x.Pos()})
+			default:
+				out = append(out, sliceOrigin{"unknown", "load of " + TermOf(x.X, nil).String(), x.Pos()})
+			}
+		case *ssa.Lookup:
+			out = append(out, sliceOrigin{"element", TermOf(x, nil).String(), x.Pos()})
+		case *ssa.Parameter:
+			// all module call sites
+			idx := -1
+			for i, p := range x.Parent().Params {
+				if p == x {
+					idx = i
+				}
+			}
+			n := a.CG().Nodes[x.Parent()]
+			sites := 0
+			if n != nil && idx >= 0 {
+				for _, e := range n.In {
+					if e.Caller == nil || !a.fnInModule(e.Caller.Func) || e.Site == nil {
+						continue
+					}
+					args := e.Site.Common().Args
+					if e.Site.Common().IsInvoke() {
+						// receiver is not in Args for invoke-mode calls
+						if idx == 0 {
+							continue
+						}
+						if idx-1 < len(args) {
+							sites++
+							walk(args[idx-1], e.Caller.Func, d+1)
+						}
+						continue
+					}
+					if idx < len(args) {
+						sites++
+						walk(args[idx], e.Caller.Func, d+1)
+					}
+				}
+			}
+			if sites == 0 {
+				out = append(out, sliceOrigin{"param", "parameter " + x.Name() + " of " + fname(x.Parent()) + " (no module caller)", x.Pos()})
+			}
+		case *ssa.TypeAssert:
+			out = append(out, sliceOrigin{"unknown", "type assertion of " + TermOf(x.X, nil).String(), x.Pos()})
+		default:
+			out = append(out, sliceOrigin{"unknown", fmt.Sprintf("%T %s", v, v.Name()), v.Pos()})
+		}
+	}
+	walk(v, fn, 0)
+	return out
+}
+
+// calleeReturns enumerates result #idx of every return of the (static or call-graph resolved)
+// module callees of call c.
+func (a *A) calleeReturns(c *ssa.Call, idx int, f func(rv ssa.Value, rf *ssa.Function), unknown func(why string)) {
+	var callees []*ssa.Function
+	if sc := c.Call.StaticCallee(); sc != nil {
+		callees = append(callees, sc)
+	} else if n := a.CG().Nodes[c.Parent()]; n != nil {
+		for _, e := range n.Out {
+			if e.Site == ssa.CallInstruction(c) && e.Callee != nil {
+				callees = append(callees, e.Callee.Func)
+			}
+		}
+	}
+	if len(callees) == 0 {
+		unknown("unresolved call " + c.String())
+		return
+	}
+	for _, callee := range callees {
+		if !a.fnInModule(callee) || callee.Blocks == nil {
+			unknown("result of " + fname(callee))
+			continue
+		}
+		for _, b := range callee.Blocks {
+			if ret, ok := b.Instrs[len(b.Instrs)-1].(*ssa.Return); ok && idx < len(ret.Results) {
+				f(ret.Results[idx], callee)
+			}
+		}
+	}
+}
+
+// ruleDeliveredBatchFresh: a batch handed to the result channel and the sinks is read by them after
+// the engine has moved on (async sink workers, a consumer of ToChannel). Its backing array must
+// therefore be storage the engine does not keep: for every call of sendResultNonBlocking /
+// callSinksAsync in package stream, no origin of the slice argument is a load from a struct field or a
+// package variable (a scratch buffer reused for the next batch would rewrite a delivered one).
+func (a *A) ruleDeliveredBatchFresh() int {
+	S := a.Named("stream", "Stream")
+	n := 0
+	for _, name := range []string{"sendResultNonBlocking", "callSinksAsync"} {
+		target := a.methodOf(S, name)
+		if target == nil {
+			a.anchorFail("Stream.%s not found", name)
+		}
+		for _, fn := range a.ModFuncs {
+			for _, site := range callsTo(fn, target) {
+				cc := callCommon(site)
+				n++
+				construct := fmt.Sprintf("%s->%s#batch-storage", fname(fn), name)
+				var retained, unknown []string
+				kinds := map[string]int{}
+				for _, o := range a.sliceOrigins(cc.Args[1], fn) {
+					kinds[o.Kind]++
+					switch o.Kind {
+					case "field", "global":
+						retained = append(retained, o.Desc+" at "+a.pos(o.Pos))
+					case "unknown":
+						unknown = append(unknown, o.Desc)
+					}
+				}
+				switch {
+				case len(retained) > 0:
+					a.Bad(construct, site.Pos(), "the delivered batch may be backed by retained storage (%s): the next batch written into it rewrites rows a sink or channel consumer still holds", strings.Join(retained, "; "))
+				case len(unknown) > 0:
+					a.Und(construct, site.Pos(), "origin of the delivered slice not resolved: %s", strings.Join(unknown, "; "))
+				default:
+					a.Ok(construct, site.Pos(), "backing array origins: %v", kinds)
+				}
+			}
+		}
+	}
 	return n
 }
